@@ -10,7 +10,10 @@ CFG = dict(
          "requests, self-termination by error block), `stopAt i` (Stop issued while Start is parked between two of its steps), `reuse` (Stop parked "
          "before RunDoneWait across a restart), `selfW` (source ends by itself while writing), `udpFail`/`udpBusy` (failed Abaco Start), `startRunFail` (StartRun of the scripted source fails "
          "1-2 times AFTER RunDoneActivate, then a Start succeeds on the same object, optionally a request, then 1-2 Stops). `stopDecided` (a Stop parked INSIDE its lock section "
-         "after reading Active, site stop.onActive, while the source ends by itself; then a Start on the same object). After every failed Start the real "
+         "after reading Active, site stop.onActive, while the source ends by itself; then a Start on the same object). `rpc` (the life cycle through the real SourceControl.Start / "
+         "SourceControl.Stop on the sources SourceControl owns - ErroringSource parked before its error block so the schedule picks when it ends by itself, "
+         "Triangle/SimPulse configured through the real Configure requests: 1-3 rounds of Start -> self-termination before/while/after -> 1-3 concurrent Stop "
+         "requests -> Start again, no other status refresh; sometimes a Start request while running, which must be refused). After every failed Start the real "
          "object's completion barrier is observed (runDone.Wait() returns? run-done channel closed?) and judged: Inactive <-> counter 0. The logged "
          "trace must be a run of the Lean transition system; return values, GetState(), goroutine census, writing flag and UDP-port re-bindability "
          "must equal the model's and satisfy the property oracle; a watchdog turns a hang into the output `hang 1`. Non-trivial = at least two "
@@ -67,8 +70,19 @@ THEOREMS = [
     ("DastardV.Props.C10", "DastardV.C10.C10_failed_startrun_restartable"),
     ("DastardV.Props.C10", "DastardV.C10.C10_failed_start_barrier_released"),
     ("DastardV.Props.C10", "DastardV.C10.C10_restart"),
+    ("DastardV.Props.C10", "DastardV.C10.C10_rpc_restart_after_stops"),
     ("DastardV.Props.C10", "DastardV.C10.C10_no_crash_partial"),
     ("DastardV.Props.C10", "DastardV.C10.C10_no_crash_counterexample"),
     ("DastardV.Props.C10", "DastardV.C10.C10_wait_own_run_partial"),
     ("DastardV.Props.C10", "DastardV.C10.C10_wait_own_run_counterexample"),
+]
+
+# hooks in /repo this check relies on (all `verif hooks:` commits, build tag verif, add-only)
+HOOKS = [
+    "0d05e7f verifPoint sites in Start/CoreLoop/Stop/runLaterIfActive/producers; verif_point_on/off.go; verif_c10.go",
+    "e1739bf rpc.sourceGone site",
+    "bfffff7 Lancero mix entry, channel-number accessor",
+    "3ce7ba1 VerifLoopSource.VerifFailStartRun, VerifRunDoneState",
+    "95def7f stop.onActive site (inside Stop's locked decision)",
+    "75f5771, dd9a4df sc.start.enter/.refused/.failed, sc.flagOn, sc.stop.enter/.notActive, sc.refreshed sites; VerifActiveSource",
 ]
